@@ -958,7 +958,9 @@ func (v *Validator) unsafeOptionalAccessError(env *requestEnv, t cedarType, attr
 		fullPath := string(attr)
 		if varName != "" && varName != "context" {
 			// nested path like context.session.token
-			fullPath = string(varName)[len("context."):] + "." + string(attr)
+			// (the record may also come from an entity attribute such as action[""], whose
+			// path is shorter than the prefix)
+			fullPath = strings.TrimPrefix(string(varName), "context.") + "." + string(attr)
 		}
 		return fmt.Errorf("unable to guarantee safety of access to optional attribute `%s` in context for %s", fullPath, env.actionUID)
 	}
